@@ -9,7 +9,7 @@ import re
 
 from mir import pl_fields, operand_places
 from tmpl import site, suffix
-from rules.c12 import returns_true_for
+from rules.c12 import returns_true_for, heap_orientation, heap_exit_rule
 from rules.c03 import commit_publishes_rule
 from rules.c06 import block_aligned_batches_rule
 
@@ -104,6 +104,9 @@ def run(ctx):
     # a layout detail of the disk engine that must not leak into results (after seed C05-d)
     block_aligned_batches_rule(ctx, prog, 'C05-R6')
     empty_chunk_rule(ctx, prog)
+    # the merge of row-sets of a primary-key table (compaction, sorted scan): physical layout must not leak (after seed C05-e = C07-d)
+    heap_orientation(ctx, prog, 'C05-R8')
+    heap_exit_rule(ctx, prog, 'C05-R9')
 
     R5 = 'C05-R5'
     ctx.rule(R5, 'what the planner knows about the engine is per database: the fields of optimizer::Config (enable_range_filter_scan, '
